@@ -695,6 +695,13 @@ func (c *grammarClient) PreCall(e *Engine, st *State, call *ast.CallExpr, callee
 		}
 		return nil
 	}
+	// b.Reset(): the buffer is empty again - what is written next is the start of a new text
+	if sel, ok := ast.Unparen(call.Fun).(*ast.SelectorExpr); ok && sel.Sel.Name == "Reset" && len(call.Args) == 0 && isBuilder(info, sel.X) {
+		if bk := e.CanonSt(st, sel.X); bk.OK {
+			return st.WithExt("last:"+bk.Key, "-1").WithExt("depth:"+bk.Key, "0,0,0")
+		}
+		return nil
+	}
 	b := emissionBuilder(info, call)
 	if b == nil {
 		return nil
